@@ -1,1 +1,133 @@
-//! verification hook (cfg pendulum_project_ntpd_rs_verif only)
+//! verification hook (cfg pendulum_project_ntpd_rs_verif only): build / view Kalman snapshots,
+//! call the private selection and combination functions, read controller state
+use super::source::KalmanState;
+use super::matrix::{Matrix, Vector};
+use super::{
+    KalmanClockController, KalmanControllerMessage, KalmanControllerMessageInner,
+    KalmanSourceMessage, SourceSnapshot, combiner, select,
+};
+use crate::config::SynchronizationConfig;
+use crate::{AlgorithmConfig, ClockId, NtpClock, NtpDuration, NtpLeapIndicator, NtpTimestamp};
+
+#[derive(Debug, Clone, Copy, PartialEq)]
+pub struct Snap {
+    pub id: ClockId,
+    pub offset: f64,
+    pub offset_var: f64,
+    pub cov: f64,
+    pub freq: f64,
+    pub freq_var: f64,
+    pub wander: f64,
+    pub delay: f64,
+    pub period: Option<f64>,
+    pub source_uncertainty: NtpDuration,
+    pub source_delay: NtpDuration,
+    pub leap: NtpLeapIndicator,
+    pub time: NtpTimestamp,
+    pub last_update: NtpTimestamp,
+}
+
+fn to_inner(s: &Snap) -> SourceSnapshot {
+    SourceSnapshot {
+        index: s.id,
+        state: KalmanState {
+            state: Vector::new_vector([s.offset, s.freq]),
+            uncertainty: Matrix::new([[s.offset_var, s.cov], [s.cov, s.freq_var]]),
+            time: s.time,
+        },
+        wander: s.wander,
+        delay: s.delay,
+        period: s.period,
+        source_uncertainty: s.source_uncertainty,
+        source_delay: s.source_delay,
+        leap_indicator: s.leap,
+        last_update: s.last_update,
+    }
+}
+
+fn from_inner(s: &SourceSnapshot) -> Snap {
+    Snap {
+        id: s.index,
+        offset: s.state.state.ventry(0),
+        freq: s.state.state.ventry(1),
+        offset_var: s.state.uncertainty.entry(0, 0),
+        cov: s.state.uncertainty.entry(0, 1),
+        freq_var: s.state.uncertainty.entry(1, 1),
+        wander: s.wander,
+        delay: s.delay,
+        period: s.period,
+        source_uncertainty: s.source_uncertainty,
+        source_delay: s.source_delay,
+        leap: s.leap_indicator,
+        time: s.state.time,
+        last_update: s.last_update,
+    }
+}
+
+pub fn make_message(s: &Snap) -> KalmanSourceMessage {
+    KalmanSourceMessage { inner: to_inner(s) }
+}
+pub fn view_message(m: &KalmanSourceMessage) -> Snap {
+    from_inner(&m.inner)
+}
+
+/// ids selected by `select::select`
+pub fn select_ids(sync: &SynchronizationConfig, algo: &AlgorithmConfig, candidates: &[Snap]) -> Vec<ClockId> {
+    let c: Vec<SourceSnapshot> = candidates.iter().map(to_inner).collect();
+    select::select(sync, algo, &c).iter().map(|s| s.index).collect()
+}
+
+#[derive(Debug, Clone)]
+pub struct Combined {
+    pub offset: f64,
+    pub offset_var: f64,
+    pub freq: f64,
+    pub freq_var: f64,
+    pub sources: Vec<ClockId>,
+    pub delay: NtpDuration,
+    pub leap: Option<NtpLeapIndicator>,
+}
+pub fn combine(selection: &[Snap], algo: &AlgorithmConfig) -> Option<Combined> {
+    let c: Vec<SourceSnapshot> = selection.iter().map(to_inner).collect();
+    combiner::combine(&c, algo).map(|c| Combined {
+        offset: c.estimate.offset(),
+        offset_var: c.estimate.offset_variance(),
+        freq: c.estimate.frequency(),
+        freq_var: c.estimate.frequency_variance(),
+        sources: c.sources,
+        delay: c.delay,
+        leap: c.leap_indicator,
+    })
+}
+
+#[derive(Debug, Clone, Copy, PartialEq)]
+pub enum ControlMsg {
+    Step { steer: f64 },
+    FreqChange { steer: f64, time: NtpTimestamp },
+}
+pub fn view_control(m: &KalmanControllerMessage) -> ControlMsg {
+    match m.inner {
+        KalmanControllerMessageInner::Step { steer } => ControlMsg::Step { steer },
+        KalmanControllerMessageInner::FreqChange { steer, time } => ControlMsg::FreqChange { steer, time },
+    }
+}
+
+#[derive(Debug, Clone, Copy, PartialEq)]
+pub struct ControllerState {
+    pub in_startup: bool,
+    pub freq_offset: f64,
+    pub desired_freq: f64,
+    pub registered: usize,
+}
+pub fn controller_state<C: NtpClock>(c: &KalmanClockController<C>) -> ControllerState {
+    ControllerState {
+        in_startup: c.in_startup,
+        freq_offset: c.freq_offset,
+        desired_freq: c.desired_freq,
+        registered: c.sources.len(),
+    }
+}
+/// (id, has snapshot, usable) of every registered source
+pub fn controller_sources<C: NtpClock>(c: &KalmanClockController<C>) -> Vec<(ClockId, Option<Snap>, bool)> {
+    c.sources.iter().map(|(id, (s, u))| (*id, s.as_ref().map(from_inner), *u)).collect()
+}
